@@ -335,10 +335,17 @@ impl LspContext {
         pos: &'a TextDocumentPositionParams,
     ) -> Vec<(&'a DefinitionType, &'a Definition)> {
         analysis.find(
-            pos.text_document.uri.to_file_path().unwrap(),
+            uri_to_path(&pos.text_document.uri),
             to_line_col(&pos.position),
         )
     }
+}
+
+/// The path a document is known by. A document that does not live on the file system (e.g. `untitled:Untitled-1`)
+/// is known by the path component of its URI: it can be edited and queried, but it is not part of any project.
+pub fn uri_to_path(uri: &Url) -> PathBuf {
+    uri.to_file_path()
+        .unwrap_or_else(|_| PathBuf::from(uri.path()))
 }
 
 pub struct LspServer {
